@@ -639,7 +639,7 @@ Section Prog.
   Lemma tsound_for fi f2 nest : tsound (evaluate_for_statement fi nest) (an_for f2 nest).
   Proof.
     intros s sa acc sa' acc' HR Hon Hfr Ea Hacc.
-    pose proof (sound_for fi f2 nest s sa acc HR) as Hs. rewrite Ea in Hs.
+    pose proof (sound_for fi f2 nest nest s sa acc HR) as Hs. rewrite Ea in Hs.
     pose proof (for_shape fi nest s) as Hsh.
     pose proof (onprog_step (evaluate_for_statement fi nest) s
                   (keeps_for st_toks rf_st_toks fi nest) (keeps_for st_keys rf_st_keys fi nest) (imm_for fi nest) Hon) as Hon'.
@@ -1158,7 +1158,7 @@ Section Link.
   Hypothesis Hfuel : longest T + max_nesting < fuel.
   Hypothesis Hsorted : keys_sorted keys.
   Hypothesis HK : forall k, In k keys -> toks_get k T <> None.
-  Hypothesis Hclean : forall n ts, toks_get n T = Some ts -> clean_line ts = true.
+  Hypothesis Hclean : forall n ts, toks_get n T = Some ts -> nodef_line ts = true.
 
   Lemma walk_line_msg_is_error : forall stmts st msg st',
     walk_line fuel stmts m st = (Ok (Some msg), st') -> is_error_msg msg = true.
@@ -1269,8 +1269,14 @@ Proof.
   - split; [intros H; discriminate H | intros msg H; exact H].
 Qed.
 
+Definition nodef_program (T : list (N * list token)) : Prop :=
+  forall n ts, toks_get n T = Some ts -> nodef_line ts = true.
+
+Lemma clean_program_nodef T : clean_program T -> nodef_program T.
+Proof. intros H n ts E. apply clean_nodef, (H n ts E). Qed.
+
 Lemma accepted_lines_gen fuel (prog : interp) (m : source_map) nl msgs0 stf :
-  wf prog -> longest (st_toks prog) + max_nesting < fuel -> clean_program (st_toks prog) ->
+  wf prog -> longest (st_toks prog) + max_nesting < fuel -> nodef_program (st_toks prog) ->
   walk_lines fuel nl m msgs0 (snd (run_from_first_numbered_line prog), []) = (Ok tt, msgs0, stf) ->
   forall n, toks_get n (st_toks prog) <> None -> AccAt fuel (st_toks prog) (st_keys prog) (mkloc (Some n) 0).
 Proof.
@@ -1299,6 +1305,30 @@ Theorem accepted_lines fuel text :
   line_bound text < fuel ->
   forallb (fun msg => negb (is_error_msg msg)) (an_messages (analyze fuel text)) = true ->
   clean_program (st_toks (p_prog (pass1_of' text))) ->
+  forall n, toks_get n (st_toks (p_prog (pass1_of' text))) <> None ->
+    AccAt fuel (st_toks (p_prog (pass1_of' text))) (st_keys (p_prog (pass1_of' text))) (mkloc (Some n) 0).
+Proof.
+  intros Hfuel Hmsgs Hclean.
+  pose proof (analysis_total fuel text Hfuel) as Hres.
+  destruct (an_walk fuel text) as (nl & r & msgs & stf & Ew & Hr & Hin_msgs).
+  specialize (Hr Hres). subst r.
+  assert (HPP : PP (0 + length (split_lines text)) (pass1_of' text)) by (apply PP_lines, PP_init).
+  destruct HPP as [Hwf _ _ _].
+  destruct (walk_lines_appends (p_map (pass1_of' text)) fuel _ _ _ _ _ _ Ew) as (extra & Hx & Hex). subst msgs.
+  assert (extra = []).
+  { destruct extra as [|x xs]; [reflexivity|]. exfalso.
+    rewrite forallb_forall in Hmsgs. specialize (Hmsgs x (Hin_msgs x ltac:(apply in_or_app; right; left; reflexivity))).
+    cbn in Hex. destruct (is_error_msg x); discriminate. }
+  subst extra. rewrite app_nil_r in Ew.
+  exact (accepted_lines_gen fuel (p_prog (pass1_of' text)) (p_map (pass1_of' text)) nl (p_msgs (pass1_of' text)) stf
+           Hwf Hfuel (clean_program_nodef _ Hclean) Ew).
+Qed.
+
+(* the same for programs that only have no DEF *)
+Theorem accepted_lines_nodef fuel text :
+  line_bound text < fuel ->
+  forallb (fun msg => negb (is_error_msg msg)) (an_messages (analyze fuel text)) = true ->
+  nodef_program (st_toks (p_prog (pass1_of' text))) ->
   forall n, toks_get n (st_toks (p_prog (pass1_of' text))) <> None ->
     AccAt fuel (st_toks (p_prog (pass1_of' text))) (st_keys (p_prog (pass1_of' text))) (mkloc (Some n) 0).
 Proof.
